@@ -58,12 +58,15 @@ theorem C01_start_establishes_SearchInv (lok : LexTreeOK lt g) (h0 : AllCleared 
 
 /-- **C01, growth: after any number of frames of any number of utterances the history table is
 well-formed** (`Reachable`: start from the all-cleared state, steps, finish + start of the next utterance),
-every live HMM state holds a good history index, and the `assert(hmm_frame(hmm) == fsgs->frame)` of
-`fsg_search_hmm_eval` / `fsg_search_sen_active` holds for every active pnode. -/
+every live HMM state holds a good history index, the `assert(hmm_frame(hmm) == fsgs->frame)` of
+`fsg_search_hmm_eval` / `fsg_search_sen_active` holds for every active pnode, and the active list is never
+longer than the lextree has pnodes (the `E_FATAL("PANIC! … #HMM evaluated > #PNodes")` of
+`fsg_search_hmm_eval` is unreachable). -/
 theorem C01_reachable_WFHist (lok : LexTreeOK lt g) (hr : Reachable shift lt g s) :
-    WFHist g s.hist s.frame ∧ SearchInv lt g s ∧ ∀ p ∈ s.active, (s.hmm p).frame = s.frame :=
+    WFHist g s.hist s.frame ∧ SearchInv lt g s ∧ (∀ p ∈ s.active, (s.hmm p).frame = s.frame) ∧
+    s.active.length ≤ lt.nodes.size :=
   have h := reachable_inv lok hr
-  ⟨h.wf, h, fun p hp => (h.hmms.2.1 p hp).2⟩
+  ⟨h.wf, h, fun p hp => (h.hmms.2.1 p hp).2, active_length_le h.hmms⟩
 
 /-- **C01/C08 `finish_clears_search`.**  In every reachable state the HMMs that are not in the cleared state
 are on the active list; so `fsg_search_finish` leaves every HMM cleared and the active list empty — what
